@@ -402,6 +402,18 @@ sqf::runtime::runtime::result sqf::runtime::runtime::execute(sqf::runtime::runti
                         else
                         {
                             res = result::ok;
+                            // The context still sleeps. Nothing may get executed for a long time,
+                            // so the maximum runtime has to be enforced here as well.
+                            if (m_configuration.max_runtime != std::chrono::milliseconds::zero() &&
+                                m_configuration.max_runtime + m_run_timestamp < std::chrono::system_clock::now())
+                            {
+                                __logmsg(logmessage::runtime::MaximumRuntimeReached(
+                                    m_context_active->empty() ? sqf::runtime::diagnostics::diag_info{} : m_context_active->current_frame().diag_info_from_position(),
+                                    m_configuration.max_runtime));
+                                m_runtime_error = false;
+                                log_messages.clear();
+                                exit(0);
+                            }
                         }
                     }
                     else
